@@ -26,9 +26,9 @@
 //	            d.F = append(d.F, e) / x = append(x, e)      (-> l ++ [e]);
 //	            p.m(args) for a Parser method m of the primitive table below (-> bind);
 //	            x.parseFrom(p) for a local x of struct type (-> plet x <- T_parseFrom x);
-//	            p.failf(pos, "constant text" | err.Error(), ...) -> Parser.fail pos kind, where kind = EValue
-//	              if the text begins with "invalid" or is not constant, ESyntax otherwise (the model's
-//	              two classes of parser errors); failf never returns (it panics with a *parseError that
+//	            p.failf(pos, "constant text" | err.Error(), ...) -> Parser.fail pos kind, where kind = ESyntax
+//	              if the constant text begins with "expected" / "unexpected" / "unterminated" / "cannot",
+//	              EValue otherwise (the model's two classes of parser errors); failf never returns (it panics with a *parseError that
 //	              Parse recovers), so the statements after it in the same block are dead and dropped;
 //	            `defer p.useWhitespace(c)` as a top-level statement: runs when the method returns normally,
 //	              i.e. it is appended to the end of the body (on the panic paths the parser state is not
@@ -56,18 +56,27 @@
 //	            a constant index (-> ParserGlue.str_index / str_from: None = run-time panic = PPanic),
 //	            len(s), conversions between string types (identity) and int -> uint64 (to_uint64 = mod 2^64),
 //	            composite literal T{} (zero value).
-//	primitives  the Parser methods (parser.go) are NOT translated by this program; a call p.m(...) is
-//	            printed as the hand model's operation (table `prims`): keyword string identifier
-//	            stringIdentifier token optionalToken peekToken nextToken peekKeyword uint int float
-//	            optionalUint intInRange anyOf optionalObjectType messageID signalValueType
-//	            environmentVariableType attributeValueType accessType enumValue useWhitespace discardLine.
-//	            Their tie to parser.go remains the differential run (hand model, correspondence only).
+//	helpers     func (p *Parser) m(params) [result] for the methods of table helperMethods (compositions of other helpers):
+//	            Parser_m : params -> M result. Additional forms: `return e` / `return p.m(..)` in tail position,
+//	            `if v := e; cond {..}`, `if err := v.Validate(); err != nil {..failf}` (-> the model's predicate of
+//	            v's type, table validPred), `x := EnumT(e)` followed by that Validate-if (-> match <enum>_of e),
+//	            `i, err := strconv.Atoi(s) | ParseUint(s, 10, 64) | ParseFloat(s, 64)` followed by `if err != nil [|| c]
+//	            {..failf}` (-> DecFloat.atoi / parse_uint / parse_float; other bases / bit sizes are errors), `x *= -1`
+//	            (int, int64: DecFloat.neg64 = wrap-around; float64: DecFloat.b64_neg = sign bit, exact for non-NaN),
+//	            l[i] on a slice with an unsigned index (None = PPanic), uint64(len(l)) = the length (a Go length is a
+//	            non-negative int), MessageID(uint64) = mod 2^32.
+//	Parse       see translateParse: exact shape required; emitted as Parser_Parse_dispatch / Parser_Parse_loop.
+//	primitives  a call p.m(...) inside any translated method is printed as the hand model's operation (table
+//	            `prims`); for the translated helpers ParserEquiv.v proves Parser_m = that operation. NOT translated
+//	            (hand model only): nextToken peekToken nextRune peekRune useWhitespace string int anyOf failf.
 package main
 
 import (
+	"bytes"
 	"fmt"
 	"go/ast"
 	"go/constant"
+	"go/format"
 	"go/token"
 	"go/types"
 	"os"
@@ -111,6 +120,19 @@ var enumCtors = map[string][]string{
 	"AttributeValueType": {"AtInt", "AtHex", "AtFloat", "AtString", "AtEnum"},
 	"AccessType":         {"AccUnrestricted", "AccRead", "AccWrite", "AccReadWrite"},
 }
+
+// Parser methods translated (compositions of other helpers); NOT translated = hand model only: nextToken peekToken
+// nextRune peekRune useWhitespace (scanner access), string (labelled loop over runes, strings.Builder), int (F12
+// conversion arithmetic), anyOf (variadic range), failf
+var helperMethods = []string{"keyword", "peekKeyword", "token", "optionalToken", "identifier", "stringIdentifier", "uint",
+	"optionalUint", "float", "intInRange", "enumValue", "optionalObjectType", "messageID", "signalValueType",
+	"environmentVariableType", "attributeValueType", "accessType", "discardLine"}
+
+var enumOf = map[string]string{"ObjectType": "object_type_of", "AttributeValueType": "attr_type_of", "AccessType": "access_type_of"}
+
+// Validate() of the non-enumeration types: the model's predicate (their tie: translate_tie groups dbcid / dbcvalidate)
+var validPred = map[string]string{"Identifier": "(ident_valid %s)", "MessageID": "(msgid_valid %s)",
+	"SignalValueType": "(%s <=? 2)", "EnvironmentVariableType": "(%s <=? 2)"}
 var enumCoq = map[string]string{"ObjectType": "object_type", "AttributeValueType": "attr_type", "AccessType": "access_type"}
 var enumConst = map[string]string{
 	"ObjectTypeUnspecified": "OtUnspecified", "ObjectTypeNetworkNode": "OtNode", "ObjectTypeMessage": "OtMessage",
@@ -121,6 +143,7 @@ var enumConst = map[string]string{
 	"AccessTypeReadWrite": "AccReadWrite",
 }
 
+var usesDefsOf = map[string]bool{}
 var structs = map[string]*types.Struct{} // translated struct types of package dbc
 
 func namedName(t types.Type) string {
@@ -198,8 +221,11 @@ func zeroOf(n ast.Node, t types.Type) string {
 // ---------------------------------------------------------------------------------------------- method context
 
 type mctx struct {
-	recv      string            // receiver name
-	recvT     string            // receiver struct name
+	recv      string // receiver name
+	recvT     string // receiver struct name
+	fn        string // Coq name of the function being translated
+	helper    bool   // a Parser helper method (no struct receiver; may return a value)
+	hasResult bool
 	parser    string            // name of the *Parser parameter
 	vars      map[string]string // variables in scope -> Coq type
 	order     []string          // declaration order
@@ -382,6 +408,17 @@ func (c *mctx) expr(e ast.Expr, pre *[]string) string {
 		}
 		failAt(e, "binary operator %s", x.Op)
 	case *ast.IndexExpr:
+		if strings.HasPrefix(coqType(x.X, info.TypeOf(x.X)), "(list ") {
+			// l[i] on a slice: run-time panic outside the bounds = None (i is an unsigned / non-negative index)
+			l := c.expr(x.X, pre)
+			i := c.expr(x.Index, pre)
+			if b, ok := info.TypeOf(x.Index).Underlying().(*types.Basic); !ok || b.Info()&types.IsUnsigned == 0 {
+				failAt(e, "slice index of a signed type")
+			}
+			v := c.fresh("e")
+			*pre = append(*pre, fmt.Sprintf("plet %s <- lift_opt (nth_error %s (Z.to_nat %s));", v, l, i))
+			return v
+		}
 		if coqType(x.X, info.TypeOf(x.X)) != "bytes" {
 			failAt(e, "index into %s", info.TypeOf(x.X))
 		}
@@ -421,7 +458,15 @@ func (c *mctx) expr(e ast.Expr, pre *[]string) string {
 					return a
 				}
 				if fb != nil && tb != nil && fb.Kind() == types.Int && tb.Kind() == types.Uint64 {
+					if lc, ok := x.Args[0].(*ast.CallExpr); ok {
+						if id, ok := lc.Fun.(*ast.Ident); ok && id.Name == "len" {
+							return a // uint64(len(x)): a length is a non-negative int, the conversion is the identity
+						}
+					}
 					return "(to_uint64 " + a + ")"
+				}
+				if fb != nil && tb != nil && fb.Kind() == types.Uint64 && tb.Kind() == types.Uint32 {
+					return "(" + a + " mod 2 ^ 32)"
 				}
 			}
 			failAt(e, "conversion %s -> %s", from, tv.Type)
@@ -429,6 +474,9 @@ func (c *mctx) expr(e ast.Expr, pre *[]string) string {
 		if id, ok := x.Fun.(*ast.Ident); ok && id.Name == "len" && len(x.Args) == 1 {
 			if coqType(x.Args[0], info.TypeOf(x.Args[0])) == "bytes" {
 				return "(blen " + c.expr(x.Args[0], pre) + ")"
+			}
+			if strings.HasPrefix(coqType(x.Args[0], info.TypeOf(x.Args[0])), "(list ") {
+				return "(Z.of_nat (length " + c.expr(x.Args[0], pre) + "))"
 			}
 			failAt(e, "len of %s", info.TypeOf(x.Args[0]))
 		}
@@ -643,8 +691,10 @@ func (c *mctx) failf(call *ast.CallExpr) string {
 	pos := c.expr(call.Args[0], &pre)
 	kind := "EValue"
 	if tv, ok := info.Types[call.Args[1]]; ok && tv.Value != nil && tv.Value.Kind() == constant.String {
-		if !strings.HasPrefix(constant.StringVal(tv.Value), "invalid") {
-			kind = "ESyntax"
+		for _, pfx := range []string{"expected", "unexpected", "unterminated", "cannot"} {
+			if strings.HasPrefix(constant.StringVal(tv.Value), pfx) {
+				kind = "ESyntax"
+			}
 		}
 	}
 	return wrap(pre, fmt.Sprintf("fail %s %s", pos, kind))
@@ -679,8 +729,18 @@ func (c *mctx) stmts(list []ast.Stmt, k string) string {
 		}
 		failAt(s, "%s outside the translated subset", x.Tok)
 	case *ast.ReturnStmt:
-		if len(x.Results) == 0 && len(rest) == 0 && c.breakK == "" {
+		if len(x.Results) == 0 && len(rest) == 0 && c.breakK == "" && !c.hasResult {
 			return c.finish()
+		}
+		if len(x.Results) == 1 && len(rest) == 0 && c.breakK == "" && c.hasResult && len(c.deferred) == 0 {
+			var pre []string
+			if call, ok := x.Results[0].(*ast.CallExpr); ok {
+				if pc, ok := c.parserCall(call, &pre); ok {
+					return wrap(pre, pc)
+				}
+			}
+			v := c.expr(x.Results[0], &pre)
+			return wrap(pre, "ret "+v)
 		}
 		failAt(s, "return outside the translated subset")
 	case *ast.DeferStmt:
@@ -759,19 +819,66 @@ func (c *mctx) finish() string {
 	for _, d := range c.deferred {
 		out += d + " ;; "
 	}
+	if c.helper {
+		return out + "ret tt"
+	}
 	return out + "ret " + c.recv
 }
 
 func (c *mctx) assign(x *ast.AssignStmt, rest []ast.Stmt, k string) string {
+	if x.Tok == token.MUL_ASSIGN && len(x.Lhs) == 1 && len(x.Rhs) == 1 {
+		// x *= -1: int / int64 -> DecFloat.neg64 (wrap-around: MinInt64 stays), float64 -> DecFloat.b64_neg (sign bit)
+		id, ok := x.Lhs[0].(*ast.Ident)
+		tv, okc := info.Types[x.Rhs[0]]
+		if ok && okc && tv.Value != nil && tv.Value.ExactString() == "-1" {
+			if _, ok := c.vars[id.Name]; ok {
+				if b, ok := info.TypeOf(id).Underlying().(*types.Basic); ok {
+					switch b.Kind() {
+					case types.Int, types.Int64:
+						return fmt.Sprintf("let %s := neg64 %s in %s", id.Name, id.Name, c.stmts(rest, k))
+					case types.Float64:
+						return fmt.Sprintf("let %s := b64_neg %s in %s", id.Name, id.Name, c.stmts(rest, k))
+					}
+				}
+			}
+		}
+		failAt(x, "*= other than `x *= -1` on an int / int64 / float64 local")
+	}
 	if x.Tok != token.ASSIGN && x.Tok != token.DEFINE {
 		failAt(x, "assignment operator %s", x.Tok)
+	}
+	// x := EnumType(e); if err := x.Validate(); err != nil { ...failf }   (-> match <enum>_of e with Some x => .. | None => fail)
+	if len(x.Lhs) == 1 && len(x.Rhs) == 1 && x.Tok == token.DEFINE {
+		if call, ok := x.Rhs[0].(*ast.CallExpr); ok && len(call.Args) == 1 {
+			if tv, ok := info.Types[call.Fun]; ok && tv.IsType() {
+				if of, isEnum := enumOf[namedName(tv.Type)]; isEnum {
+					v, okv := x.Lhs[0].(*ast.Ident)
+					if !okv || len(rest) == 0 {
+						failAt(x, "conversion to an enumeration type outside the idiom `x := T(e); if err := x.Validate(); err != nil {...}`")
+					}
+					body := c.validateIf(rest[0], v.Name)
+					if body == nil {
+						failAt(x, "conversion to an enumeration type outside the idiom `x := T(e); if err := x.Validate(); err != nil {...}`")
+					}
+					var pre []string
+					arg := c.expr(call.Args[0], &pre)
+					fb := c.scoped(func() string { return c.stmts(body, "panic") })
+					some := c.scoped(func() string {
+						c.declare(v, v.Name, enumCoq[namedName(tv.Type)])
+						return c.stmts(rest[1:], k)
+					})
+					return wrap(pre, fmt.Sprintf("match %s %s with Some %s => %s | None => %s end", of, arg, v.Name, some, fb))
+				}
+			}
+		}
 	}
 	// i, err := strconv.Atoi(s); if err != nil [|| c] { ... failf }
 	if len(x.Lhs) == 2 && len(x.Rhs) == 1 && x.Tok == token.DEFINE {
 		call, ok := x.Rhs[0].(*ast.CallExpr)
 		if ok {
 			if se, ok := call.Fun.(*ast.SelectorExpr); ok {
-				if pk, ok := se.X.(*ast.Ident); ok && pk.Name == "strconv" && se.Sel.Name == "Atoi" && len(rest) > 0 {
+				if pk, ok := se.X.(*ast.Ident); ok && pk.Name == "strconv" && len(rest) > 0 {
+					conv := strconvFn(call)
 					v, okv := x.Lhs[0].(*ast.Ident)
 					er, oke := x.Lhs[1].(*ast.Ident)
 					ifs, oki := rest[0].(*ast.IfStmt)
@@ -814,10 +921,10 @@ func (c *mctx) assign(x *ast.AssignStmt, rest []ast.Stmt, k string) string {
 								}
 								return cont
 							})
-							return wrap(pre, fmt.Sprintf("match atoi %s with None => %s | Some %s => %s end", arg, failBranch, v.Name, some))
+							return wrap(pre, fmt.Sprintf("match %s %s with None => %s | Some %s => %s end", conv, arg, failBranch, v.Name, some))
 						}
 					}
-					failAt(x, "strconv.Atoi outside the idiom `i, err := strconv.Atoi(s); if err != nil [|| c] { ...failf }`")
+					failAt(x, "strconv call outside the idiom `i, err := strconv.F(s, ...); if err != nil [|| c] { ...failf }`")
 				}
 			}
 		}
@@ -864,6 +971,59 @@ func (c *mctx) assign(x *ast.AssignStmt, rest []ast.Stmt, k string) string {
 	return ""
 }
 
+// strconvFn: the model function of a strconv call (DecFloat.v); the base / bit size arguments must be the ones modelled
+func strconvFn(call *ast.CallExpr) string {
+	se := call.Fun.(*ast.SelectorExpr)
+	constArg := func(i int, want string) bool {
+		tv, ok := info.Types[call.Args[i]]
+		return ok && tv.Value != nil && tv.Value.ExactString() == want
+	}
+	switch {
+	case se.Sel.Name == "Atoi" && len(call.Args) == 1:
+		return "atoi"
+	case se.Sel.Name == "ParseUint" && len(call.Args) == 3 && constArg(1, "10") && constArg(2, "64"):
+		return "parse_uint"
+	case se.Sel.Name == "ParseFloat" && len(call.Args) == 2 && constArg(1, "64"):
+		return "parse_float"
+	}
+	failAt(call, "strconv.%s with these arguments has no model (Atoi(s), ParseUint(s, 10, 64), ParseFloat(s, 64))", se.Sel.Name)
+	return ""
+}
+
+// validateIf: s is `if err := <x>.Validate(); err != nil { ...terminating }` -> its body, else nil
+func (c *mctx) validateIf(s ast.Stmt, x string) []ast.Stmt {
+	ifs, ok := s.(*ast.IfStmt)
+	if !ok || ifs.Init == nil || ifs.Else != nil || !c.terminates(ifs.Body.List) {
+		return nil
+	}
+	as, ok := ifs.Init.(*ast.AssignStmt)
+	if !ok || as.Tok != token.DEFINE || len(as.Lhs) != 1 || len(as.Rhs) != 1 {
+		return nil
+	}
+	er, ok := as.Lhs[0].(*ast.Ident)
+	call, ok2 := as.Rhs[0].(*ast.CallExpr)
+	if !ok || !ok2 || len(call.Args) != 0 {
+		return nil
+	}
+	se, ok := call.Fun.(*ast.SelectorExpr)
+	if !ok || se.Sel.Name != "Validate" {
+		return nil
+	}
+	if id, ok := se.X.(*ast.Ident); !ok || id.Name != x {
+		return nil
+	}
+	b, ok := ifs.Cond.(*ast.BinaryExpr)
+	if !ok || b.Op != token.NEQ {
+		return nil
+	}
+	l, ok1 := b.X.(*ast.Ident)
+	r, ok2 := b.Y.(*ast.Ident)
+	if !ok1 || !ok2 || l.Name != er.Name || r.Name != "nil" {
+		return nil
+	}
+	return ifs.Body.List
+}
+
 // join: both arms yield the assigned variables, the rest continues with them
 func (c *mctx) join(vs []string, arms string, rest []ast.Stmt, k string) string {
 	if len(vs) == 0 {
@@ -885,6 +1045,31 @@ func (c *mctx) ifStmt(x *ast.IfStmt, rest []ast.Stmt, k string) string {
 	}
 	// if v, ok := y.(*T); ok && c { ... }
 	if x.Init != nil {
+		if as, ok := x.Init.(*ast.AssignStmt); ok && as.Tok == token.DEFINE && len(as.Lhs) == 1 && len(as.Rhs) == 1 {
+			// if err := v.Validate(); err != nil { ...failf }
+			if call, ok := as.Rhs[0].(*ast.CallExpr); ok {
+				if se, ok := call.Fun.(*ast.SelectorExpr); ok && se.Sel.Name == "Validate" {
+					id, okid := se.X.(*ast.Ident)
+					if okid {
+						if body := c.validateIf(x, id.Name); body != nil {
+							pred, okp := validPred[namedName(info.TypeOf(id))]
+							if _, inScope := c.vars[id.Name]; okp && inScope {
+								fb := c.scoped(func() string { return c.stmts(body, "panic") })
+								return fmt.Sprintf("if negb "+pred+" then %s else %s", id.Name, fb, c.stmts(rest, k))
+							}
+						}
+					}
+					failAt(x, "Validate() outside the idiom `if err := v.Validate(); err != nil { ...failf }` on a local of a modelled type")
+				}
+			}
+			// if v := e; cond { ... }: v is in scope for the if statement only
+			restS := c.scoped(func() string { return c.stmts(rest, k) })
+			return c.scoped(func() string {
+				plain := *x
+				plain.Init = nil
+				return c.stmts([]ast.Stmt{as, &plain}, restS)
+			})
+		}
 		as, ok := x.Init.(*ast.AssignStmt)
 		if !ok || as.Tok != token.DEFINE || len(as.Lhs) != 2 || len(as.Rhs) != 1 {
 			failAt(x, "if with an init statement other than `v, ok := y.(*T)`")
@@ -1048,7 +1233,7 @@ func (c *mctx) forStmt(x *ast.ForStmt, rest []ast.Stmt, k string) string {
 		return true
 	})
 	c.nfix++
-	name := fmt.Sprintf("%s_parseFrom_loop%d", c.recvT, c.nfix)
+	name := fmt.Sprintf("%s_loop%d", c.fn, c.nfix)
 	decl, use := c.params(ps)
 	if usesDefs {
 		decl, use = " (p_defs : list def)"+decl, " p_defs"+use
@@ -1089,7 +1274,7 @@ func (c *mctx) rangeStmt(x *ast.RangeStmt, rest []ast.Stmt, k string) string {
 	vs := c.assigned(x.Body.List)
 	ps := union(c.reads(x.Body), vs, c.order)
 	c.nfix++
-	name := fmt.Sprintf("%s_parseFrom_range%d", c.recvT, c.nfix)
+	name := fmt.Sprintf("%s_range%d", c.fn, c.nfix)
 	decl, use := c.params(ps)
 	saveB := c.breakK
 	c.breakK = "ret " + tuple(vs)
@@ -1182,6 +1367,143 @@ const prelude = `Section Translated.
   Local Notation P_discard_line := (discard_line is_letter_hi is_digit_hi F).
 
 `
+
+func srcOf(n ast.Node) string {
+	var b bytes.Buffer
+	if err := format.Node(&b, fset, n); err != nil {
+		failAt(n, "cannot print: %v", err)
+	}
+	return strings.Join(strings.Fields(b.String()), "")
+}
+
+// translateParse: func (p *Parser) Parse() (err Error). The method must have EXACTLY this shape (anything else is an error):
+//
+//	defer func() { if r := recover(); r != nil { if errParse, ok := r.(*parseError); ok { err = errParse } else { panic(r) } } }()
+//	for <cond> { var def Def; switch p.peekKeyword() { case K: def = &T{} ... default: def = &U{} }; def.parseFrom(p); p.defs = append(p.defs, def) }
+//	return nil
+//
+// Reading: the outcome of Parse together with Defs(): the panic of a *parseError (PErr) is recovered = Err pos kind defs-so-far,
+// any other panic is re-raised = Panic; `def = &T{}; def.parseFrom(p); p.defs = append(p.defs, def)` = the final value of
+// the fresh T (T_parseFrom [p.defs] T_zero) read as a definition of Dbc/Ast.v (ParserGlue.T_to_def), appended to p.defs.
+func translateParse(pkg *packages.Package, w *strings.Builder, files map[string]bool) {
+	var fd *ast.FuncDecl
+	for _, f := range pkg.Syntax {
+		for _, d := range f.Decls {
+			if x, ok := d.(*ast.FuncDecl); ok && x.Recv != nil && x.Name.Name == "Parse" && x.Body != nil {
+				if pt, ok := info.TypeOf(x.Recv.List[0].Type).(*types.Pointer); ok && namedName(pt.Elem()) == "Parser" {
+					fd = x
+				}
+			}
+		}
+	}
+	if fd == nil {
+		panic(terr{"pkg/dbc: method (*Parser).Parse not found"})
+	}
+	pos := fset.Position(fd.Pos())
+	rel, _ := filepath.Rel(root, pos.Filename)
+	files[rel] = true
+	pn := fd.Recv.List[0].Names[0].Name
+	if srcOf(fd.Type) != "func()(errError)" || len(fd.Body.List) != 3 {
+		failAt(fd, "Parse: signature / number of statements differs from the translated shape")
+	}
+	const wantDefer = "deferfunc(){ifr:=recover();r!=nil{iferrParse,ok:=r.(*parseError);ok{err=errParse}else{panic(r)}}}()"
+	if srcOf(fd.Body.List[0]) != wantDefer {
+		failAt(fd.Body.List[0], "Parse: the deferred recover differs from `recover only *parseError, re-panic anything else`")
+	}
+	if srcOf(fd.Body.List[2]) != "returnnil" {
+		failAt(fd.Body.List[2], "Parse: final statement is not `return nil`")
+	}
+	loop, ok := fd.Body.List[1].(*ast.ForStmt)
+	if !ok || loop.Init != nil || loop.Post != nil || loop.Cond == nil || len(loop.Body.List) != 4 {
+		failAt(fd.Body.List[1], "Parse: loop shape")
+	}
+	c := &mctx{fn: "Parser_Parse", helper: true, parser: pn, vars: map[string]string{}}
+	cond := c.cond(loop.Cond, "ret true", "ret false")
+	if srcOf(loop.Body.List[0]) != "vardefDef" {
+		failAt(loop.Body.List[0], "Parse: expected `var def Def`")
+	}
+	sw, ok := loop.Body.List[1].(*ast.SwitchStmt)
+	if !ok || sw.Init != nil || sw.Tag == nil || srcOf(sw.Tag) != pn+".peekKeyword()" {
+		failAt(loop.Body.List[1], "Parse: expected `switch p.peekKeyword()`")
+	}
+	if srcOf(loop.Body.List[2]) != "def.parseFrom("+pn+")" || srcOf(loop.Body.List[3]) != pn+".defs=append("+pn+".defs,def)" {
+		failAt(loop.Body.List[2], "Parse: expected `def.parseFrom(p); p.defs = append(p.defs, def)`")
+	}
+	arm := func(cc *ast.CaseClause) string {
+		if len(cc.Body) != 1 {
+			failAt(cc, "Parse: case body is not a single `def = &T{}`")
+		}
+		as, ok := cc.Body[0].(*ast.AssignStmt)
+		if !ok || as.Tok != token.ASSIGN || len(as.Lhs) != 1 || len(as.Rhs) != 1 || srcOf(as.Lhs[0]) != "def" {
+			failAt(cc, "Parse: case body is not a single `def = &T{}`")
+		}
+		u, ok := as.Rhs[0].(*ast.UnaryExpr)
+		if !ok || u.Op != token.AND {
+			failAt(cc, "Parse: case body is not a single `def = &T{}`")
+		}
+		cl, ok := u.X.(*ast.CompositeLit)
+		if !ok || len(cl.Elts) != 0 {
+			failAt(cc, "Parse: case body is not a single `def = &T{}`")
+		}
+		tn := namedName(info.TypeOf(cl))
+		if _, ok := structs[tn]; !ok {
+			failAt(cc, "Parse: %s has no translated parseFrom", tn)
+		}
+		pd := ""
+		if usesDefsOf[tn] {
+			pd = " p_defs"
+		}
+		return fmt.Sprintf("run_as %s_to_def (%s_parseFrom%s %s_zero)", tn, tn, pd, tn)
+	}
+	var def *ast.CaseClause
+	disp := ""
+	closing := ""
+	for _, st := range sw.Body.List {
+		cc := st.(*ast.CaseClause)
+		if cc.List == nil {
+			def = cc
+			continue
+		}
+		if def != nil {
+			failAt(cc, "Parse: default is not the last clause")
+		}
+		if len(cc.List) != 1 {
+			failAt(cc, "Parse: case with several keywords")
+		}
+		k, ok := constString(cc.List[0])
+		if !ok {
+			failAt(cc, "Parse: case is not a constant keyword")
+		}
+		disp += fmt.Sprintf("if bytes_eqb kw %s then %s\n    else ", k, arm(cc))
+	}
+	if def == nil {
+		failAt(sw, "Parse: switch without default")
+	}
+	disp += arm(def) + closing
+	fmt.Fprintf(w, "  (** %s:%d method Parse of Parser: the keyword switch, then the loop (outcome = Parse's error with Defs()) *)\n", rel, pos.Line)
+	fmt.Fprintf(w, "  Definition Parser_Parse_dispatch (p_defs : list def) (kw : bytes) : M def :=\n    %s.\n\n", disp)
+	fmt.Fprintf(w, `  Fixpoint Parser_Parse_loop (f : nat) (p_defs : list def) (st : pstate) {struct f} : outcome :=
+    match f with
+    | O => OutOfFuel
+    | S f' =>
+      match (%s) st with
+      | POk true st1 =>
+        match (plet kw <- P_peek_keyword; Parser_Parse_dispatch p_defs kw) st1 with
+        | POk d st2 => Parser_Parse_loop f' (p_defs ++ [d]) st2
+        | PErr p k => Err p k p_defs
+        | PPanic => Panic
+        | PFuel => OutOfFuel
+        end
+      | POk false _ => Ok p_defs
+      | PErr p k => Err p k p_defs
+      | PPanic => Panic
+      | PFuel => OutOfFuel
+      end
+    end.
+
+`, cond)
+	fmt.Printf("TRANSLATED Parser_Parse %s:%d\n", rel, pos.Line)
+}
 
 func run(rootDir, out string) int {
 	root = rootDir
@@ -1316,7 +1638,7 @@ func run(rootDir, out string) int {
 			if namedName(info.TypeOf(fd.Type.Params.List[0].Type).(*types.Pointer).Elem()) != "Parser" {
 				failAt(fd, "parseFrom parameter is not *Parser")
 			}
-			c := &mctx{recv: fd.Recv.List[0].Names[0].Name, recvT: n, parser: fd.Type.Params.List[0].Names[0].Name,
+			c := &mctx{recv: fd.Recv.List[0].Names[0].Name, recvT: n, fn: n + "_parseFrom", parser: fd.Type.Params.List[0].Names[0].Name,
 				vars: map[string]string{}}
 			c.declare(fd, c.recv, n)
 			body := c.stmts(fd.Body.List, "\x00FINISH\x00")
@@ -1329,9 +1651,68 @@ func run(rootDir, out string) int {
 			if c.usesDefs {
 				pd = " (p_defs : list def)"
 			}
+			usesDefsOf[n] = c.usesDefs
 			fmt.Fprintf(&transV, "  Definition %s_parseFrom%s (%s : %s) : M %s :=\n    %s.\n\n", n, pd, c.recv, n, n, body)
 			fmt.Printf("TRANSLATED %s_parseFrom %s:%d\n", n, m.file, m.line)
 		}
+		// the Parser helper methods that are compositions of other helpers (each calls the MODEL's operations, table prims)
+		for _, hn := range helperMethods {
+			var fd *ast.FuncDecl
+			for _, f := range pkg.Syntax {
+				for _, d := range f.Decls {
+					if x, ok := d.(*ast.FuncDecl); ok && x.Recv != nil && x.Name.Name == hn && x.Body != nil {
+						if pt, ok := info.TypeOf(x.Recv.List[0].Type).(*types.Pointer); ok && namedName(pt.Elem()) == "Parser" {
+							fd = x
+						}
+					}
+				}
+			}
+			if fd == nil {
+				panic(terr{"pkg/dbc: method (*Parser)." + hn + " not found"})
+			}
+			pos := fset.Position(fd.Pos())
+			rel, _ := filepath.Rel(root, pos.Filename)
+			files[rel] = true
+			if len(fd.Recv.List[0].Names) != 1 {
+				failAt(fd, "receiver without a name")
+			}
+			c := &mctx{fn: "Parser_" + hn, helper: true, parser: fd.Recv.List[0].Names[0].Name, vars: map[string]string{}}
+			params := ""
+			for _, fl := range fd.Type.Params.List {
+				if _, variadic := fl.Type.(*ast.Ellipsis); variadic || len(fl.Names) == 0 {
+					failAt(fd, "variadic / unnamed parameter")
+				}
+				for _, nm := range fl.Names {
+					ct := coqType(nm, info.TypeOf(nm))
+					c.declare(nm, nm.Name, ct)
+					params += fmt.Sprintf(" (%s : %s)", nm.Name, ct)
+				}
+			}
+			resT := "unit"
+			if fd.Type.Results != nil {
+				if len(fd.Type.Results.List) != 1 || len(fd.Type.Results.List[0].Names) != 0 {
+					failAt(fd, "several / named results")
+				}
+				resT = coqType(fd, info.TypeOf(fd.Type.Results.List[0].Type))
+				c.hasResult = true
+			}
+			fin := "\x00FINISH\x00"
+			body := c.stmts(fd.Body.List, fin)
+			if c.hasResult && strings.Contains(body, fin) {
+				failAt(fd, "a path of %s ends without return", hn)
+			}
+			body = strings.ReplaceAll(body, fin, c.finish())
+			if c.usesDefs {
+				failAt(fd, "helper reading p.defs")
+			}
+			fmt.Fprintf(&transV, "  (** %s:%d method %s of Parser (receiver %s) *)\n", rel, pos.Line, hn, c.parser)
+			for _, fx := range c.fixes {
+				transV.WriteString("  " + strings.ReplaceAll(strings.TrimRight(fx, "\n"), "\n", "\n  ") + "\n\n")
+			}
+			fmt.Fprintf(&transV, "  Definition Parser_%s%s : M %s :=\n    %s.\n\n", hn, params, resT, body)
+			fmt.Printf("TRANSLATED Parser_%s %s:%d\n", hn, rel, pos.Line)
+		}
+		translateParse(pkg, &transV, files)
 		transV.WriteString("End Translated.\n")
 	}()
 	if rc != 0 {
